@@ -145,6 +145,10 @@ type impl struct {
 	tree     mkvs.Tree
 	overlays []mkvs.OverlayTree
 	spare    mkvs.OverlayTree // ocopy: Copy(nil) of the outermost overlay, kept aside
+	// forks: candidate roots of the current version committed from `last` and not finalized
+	forks      []node.Root
+	forksFinal bool
+	forkBase   node.Root
 	version  uint64
 	last     node.Root // root the tree is based on
 	prev     node.Root // root before the last commit
@@ -313,6 +317,9 @@ func (im *impl) commit() (writelog.WriteLog, hash.Hash, error) {
 func (im *impl) exec(w []string) string {
 	op := strings.Join(w, " ")
 	e := func(err error) string { return op + " ERR:" + strings.ReplaceAll(err.Error(), " ", "_") }
+	if forkOps[w[0]] {
+		return im.execFork(w)
+	}
 	// Ops that make no sense in the current state (possible after shrinking) are skipped.
 	switch w[0] {
 	case "insert", "remove", "remx", "get", "iter":
@@ -804,6 +811,17 @@ func withCaps(ops []string, mode string) []string {
 // caches are made unlimited is an instance of "eviction changes an answer" (C03) and is
 // attributed to the value cache if it persists with an unlimited node cache.
 func refine(ops []string, d string) string {
+	if strings.Contains(d, "fork-write-log") || strings.Contains(d, "`getwlf") {
+		return "fork-write-log-divergence"
+	}
+	if strings.Contains(d, "node_not_found") {
+		for _, op := range ops {
+			if strings.HasPrefix(op, "forkfinalize") {
+				// a read under the finalized candidate fails after its competitors were discarded
+				return "fork-finalize-loses-node"
+			}
+		}
+	}
 	if strings.Contains(d, "key-") || strings.Contains(d, "`k") {
 		return "key-op-divergence"
 	}
@@ -834,6 +852,7 @@ func main() {
 	focus := flag.String("focus", "c03", "c02 | c03 | c13")
 	ctxCases := flag.Int("ctx", 0, "number of generated api.Context histories (C03)")
 	keyCases := flag.Int("keys", 0, "number of generated node.Key operation batches (C02)")
+	forkCases := flag.Int("forks", 0, "number of generated fork histories: competing non-finalized roots (C13)")
 	flag.IntVar(&minCap, "mincap", 1, "smallest node cache capacity generated")
 	flag.IntVar(&minValCap, "minvalcap", 1, "smallest value cache capacity (bytes) generated")
 	out := flag.String("out", "-", "result file")
@@ -865,7 +884,7 @@ func main() {
 			res.Count("repeat:" + sig)
 			return
 		}
-		if minimize {
+		if minimize && os.Getenv("VERIF_MKVS_NOSHRINK") == "" {
 			head, tail := ops[:1], ops[1:]
 			tail = hlib.Shrink(tail, func(c []string) bool {
 				cc := append(append([]string{}, head...), c...)
@@ -984,6 +1003,31 @@ func main() {
 			seen[key] = true
 			res.Distinct++
 		}
+	}
+	for i := 0; i < *forkCases && len(res.Failures) < 8; i++ {
+		cr := rng.Fork()
+		cs := cr.Seed()
+		ops := genForkCase(cr, res)
+		d, lines := check(ops)
+		for _, l := range lines {
+			if strings.HasPrefix(l, "getwlf ") {
+				if strings.HasSuffix(l, " NOTSERVED") {
+					res.Count("fork-getwl-notserved")
+				} else {
+					res.Count("fork-getwl-served")
+				}
+			}
+		}
+		if i < 1 {
+			res.AddSample(lines)
+		}
+		if d != "" {
+			runOne(ops, cs, true)
+			continue
+		}
+		res.Cases++
+		res.Ops += len(lines)
+		res.Distinct++
 	}
 	for i := 0; i < *keyCases && len(res.Failures) < 8; i++ {
 		cr := rng.Fork()
